@@ -9,6 +9,7 @@ import PcfgVerif.Drive.Probs
 import PcfgVerif.Drive.OmenTrainer
 import PcfgVerif.Drive.Session
 import PcfgVerif.Drive.Detect
+import PcfgVerif.Drive.SoftFloat
 /-! Line-protocol driver: one operation per input line, one canonical answer line each. -/
 
 structure DState where
@@ -50,6 +51,7 @@ def dispatch (s : DState) (line : String) : DState × String :=
       let (p, out) := Drive.Reader.step s.rd toks
       ({ s with rd := p }, out)
     else if cmd.startsWith "cp." then (s, Drive.Probs.step toks)
+    else if cmd.startsWith "fp." then (s, Drive.SoftFloat.step toks)
     else if cmd.startsWith "ot." then
       let (p, out) := Drive.OmenTrainer.step s.ot toks
       ({ s with ot := p }, out)
